@@ -721,8 +721,11 @@ impl SmithNormalForm {
             }
             let diag: Vec<i128> = (0..n).map(|j| self.rows[j][j]).collect();
             //eprintln!("diag {diag:?}");
-            let prod = diag.iter().product::<i128>();
-            if prod == self.h as i128 {
+            // The product overflows while several pivots are still equal to h.
+            let prod = diag
+                .iter()
+                .try_fold(1i128, |acc, &d| acc.checked_mul(d));
+            if prod == Some(self.h as i128) {
                 if self.verbose {
                     eprintln!("Found basis of relation lattice");
                 }
